@@ -25,7 +25,9 @@ for d in sorted(glob.glob(os.path.join(HERE, "seeded", "C*-*"))):
     first = (re.search(r"check C\d+ exit=1 (violation: .*)", log) or [None, ""])[1][:260]
     applies = "does not apply" not in log
     breaks = applies and dw not in ("0", "?") and do == "0"
-    status = ("detected" if checks.get(prop) == 1 else "MISSED") if breaks else ("neutralised" if applies else "unportable")
+    others = sorted(c for c, e in checks.items() if c != prop and e == 1)
+    status = ("detected" if checks.get(prop) == 1 else (f"detected-by-{'+'.join(others)}" if others else "MISSED")) if breaks \
+        else ("neutralised" if applies else "unportable")
     note = ""
     extra = os.path.join(d, "note.txt")
     if os.path.exists(extra):
@@ -47,6 +49,8 @@ with open(os.path.join(HERE, "seeded", "SUMMARY.md"), "w") as f:
         f.write(f"| {r['id']} | {r['status']} | {r['pinned_tests_exit_with_change']} | {r['demo_exit_with_change']}/{r['demo_exit_without_change']} | "
                 f"{r['quick_check_exit_codes']} | {r['summary'][:160].replace('|', '/')} | {r['first_violation_reported'][:160].replace('|', '/')} |\n")
     det = sum(r["status"] == "detected" for r in rows); live = sum(r["breaks_property_on_current_tree"] for r in rows)
-    f.write(f"\n{det} of {live} live seeded changes detected by the quick check of their own property; "
+    cross = sum(r["status"].startswith("detected-by-") for r in rows)
+    f.write(f"\n{det} of {live} live seeded changes detected by the quick check of their own property, {cross} more only by the check of "
+            f"another property (see DESIGN.md 8.11), {live - det - cross} missed; "
             f"{sum(r['status'] == 'neutralised' for r in rows)} neutralised by a fix commit (no longer break the property).\n")
 print(open(os.path.join(HERE, "seeded", "SUMMARY.md")).read()[-400:])
